@@ -85,6 +85,7 @@ impl KnownFindings {
     }
 }
 
+#[derive(Clone)]
 pub struct RunCfg {
     pub tier: Tier,
     pub seed: u64,
@@ -93,6 +94,8 @@ pub struct RunCfg {
     pub kf: KnownFindings,
     /// scale factor on case counts (VP_SCALE env; default 1.0) — for experiments only
     pub scale: f64,
+    /// strict mode: no known-finding exclusion is applied (used to replay pinned cases)
+    pub strict: bool,
 }
 
 impl RunCfg {
@@ -550,8 +553,12 @@ pub fn enumerate<C>(
 pub fn replay_pinned(
     rep: &mut Report,
     cfg: &RunCfg,
-    replay: &dyn Fn(&str, &serde_json::Value) -> Result<Verdict, String>,
+    replay: &dyn Fn(&RunCfg, &str, &serde_json::Value) -> Result<Verdict, String>,
 ) {
+    let strict_cfg = RunCfg {
+        strict: true,
+        ..cfg.clone()
+    };
     for f in cfg.kf.for_property(rep.id) {
         let Some(p) = &f.pinned_case else {
             rep.known_lines
@@ -573,7 +580,7 @@ pub fn replay_pinned(
                 continue;
             }
         };
-        match util::catch(|| replay(&rf.phase, &rf.case)) {
+        match util::catch(|| replay(&strict_cfg, &rf.phase, &rf.case)) {
             Ok(Ok(v)) if v.is_fail() => {
                 rep.known_lines.push(format!(
                     "KNOWN-FINDING: property={} {} [{}; pinned {}]",
@@ -598,6 +605,74 @@ pub fn replay_pinned(
             }
         }
     }
+}
+
+/// Replay every committed regression case of this property (`replays/regress/<ID>-*.json`: shrunk
+/// failures of defects that were repaired, and of seeded breakages) through the same oracle.
+/// These bypass the generator; a failure is a violation whose replay is the file itself.
+pub fn replay_regress(
+    rep: &mut Report,
+    cfg: &RunCfg,
+    replay: &dyn Fn(&RunCfg, &str, &serde_json::Value) -> Result<Verdict, String>,
+) {
+    let dir = cfg.root.join("replays").join("regress");
+    let Ok(rd) = std::fs::read_dir(&dir) else {
+        return;
+    };
+    let mut files: Vec<PathBuf> = rd
+        .filter_map(|e| e.ok().map(|e| e.path()))
+        .filter(|p| {
+            p.file_name()
+                .and_then(|n| n.to_str())
+                .is_some_and(|n| n.starts_with(&format!("{}-", rep.id)) && n.ends_with(".json"))
+        })
+        .collect();
+    files.sort();
+    let t0 = Instant::now();
+    let mut n = 0;
+    for f in files {
+        let Ok(text) = std::fs::read_to_string(&f) else {
+            continue;
+        };
+        let Ok(rf) = serde_json::from_str::<ReplayFile>(&text) else {
+            rep.infra_error = Some(format!("bad regression file {}", f.display()));
+            continue;
+        };
+        n += 1;
+        let res = util::catch(|| replay(cfg, &rf.phase, &rf.case));
+        let fail = match res {
+            Ok(Ok(v)) => {
+                if v.excluded.is_some() {
+                    None
+                } else {
+                    if v.nontrivial {
+                        rep.nt_keys.insert(util::hash_bytes(text.as_bytes()));
+                    }
+                    v.fail
+                }
+            }
+            Ok(Err(e)) => {
+                rep.infra_error = Some(format!("regression file {} not replayable: {e}", f.display()));
+                None
+            }
+            Err(p) => Some(p),
+        };
+        if let Some(reason) = fail {
+            rep.violations.push(Violation {
+                phase: "regress".into(),
+                reason,
+                replay: f.display().to_string(),
+            });
+        }
+    }
+    rep.evaluations += n;
+    rep.phases.push(PhaseInfo {
+        name: "regress".into(),
+        evaluations: n,
+        nontrivial_distinct: 0,
+        exhaustive: false,
+        wall_s: t0.elapsed().as_secs_f64(),
+    });
 }
 
 pub fn from_json<C: DeserializeOwned>(v: &serde_json::Value) -> Result<C, String> {
